@@ -54,7 +54,9 @@ def mimic_function[**Args, Result](
             except AttributeError:
                 pass
         try:
-            target.__dict__.update(function.__dict__)
+            for key, value in function.__dict__.items():
+                # never override attributes the wrapper already has - it may be an object keeping its own state there
+                target.__dict__.setdefault(key, value)
 
         except AttributeError:
             pass
